@@ -2,12 +2,16 @@
 
 IMPORTS = "From Ergo Require Import Common.Base Event.Model Event.Cases."
 
-TAGS = ["stale-record-notify"]
+RIMPORTS = "From Ergo Require Import Common.Base Event.Model Event.Cases Event.Remote Event.RemoteCases."
+
+TAGS = ["stale-record-notify", "remote-subscribe-race", "remote-unregister-overtakes"]
 
 SEQ_CORR = ["corr_lts", "corr_seq"]
 SEQ_SPEC = ["spec_once_in_order", "spec_token", "spec_lastN", "spec_unregister_once", "spec_start_stop"]
 HK_CORR = ["corr_hooked"]
 HK_SPEC = ["spec_hooked", "spec_hooked_notify"]
+R_CORR = ["corr_remote"]
+R_SPEC = ["spec_r_once_in_order", "spec_r_token", "spec_r_lastN", "spec_r_unregister_once", "spec_r_start_stop"]
 
 
 def _known_tags(c):
@@ -52,6 +56,30 @@ def _hooked(c, name, n, seed=None, corr=HK_CORR):
         c.cases(name, out, IMPORTS, "hcase", corr=list(corr), spec=HK_SPEC, premise=["premise_hooked"])
 
 
+def _remote(c, name, n, seed=None, corr=R_CORR):
+    """two real nodes over loopback, quiescent histories with subscribers on the other node"""
+    args = ["remote", "-n", str(n)]
+    if c.replay and seed is None:
+        args = ["remote", "-replay", c.replay]
+    out = c.harness("event", args, env=({"VERIF_SEED": str(seed)} if seed is not None else None))
+    if out:
+        c.cases(name, out, RIMPORTS, "rcase", corr=list(corr), spec=R_SPEC, premise=["premise_remote"])
+
+
+def _rstress(c, name, rounds, seed=None):
+    """two real nodes, un-quiesced: per-publisher order / at-most-once of the live stream must hold; the lost and
+    repeated publications of the known findings are reported only when known_findings.json lists their tags"""
+    args = ["rstress", "-n", str(rounds)]
+    kt = _known_tags(c)
+    if kt:
+        args += ["-known", ",".join(kt)]
+    if c.replay and seed is None:
+        args += ["-replay", c.replay]
+    out = c.harness("event", args, env=({"VERIF_SEED": str(seed)} if seed is not None else None))
+    if out:
+        c.monitor(name, out)
+
+
 def _stress(c, name, rounds, seed=None):
     out = c.harness("event", ["stress", "-n", str(rounds)], env=({"VERIF_SEED": str(seed)} if seed is not None else None))
     if out:
@@ -62,29 +90,37 @@ def run(c):
     c.proofs("theories/Properties/C18.v", clean=(c.tier == "thorough"))
     # the checker definitions are not in the cone of the property file: (re)build them after the cone
     import vlib
-    ok, log = vlib.coq_make(["theories/Event/Cases.vo"])
+    ok, log = vlib.coq_make(["theories/Event/Cases.vo", "theories/Event/RemoteCases.vo"])
     if not ok:
-        c.broken.append({"kind": "proof", "what": "Coq build of theories/Event/Cases.v failed", "detail": log[-2500:]})
+        c.broken.append({"kind": "proof", "what": "Coq build of theories/Event/Cases.v / RemoteCases.v failed", "detail": log[-2500:]})
     quick = c.tier == "quick"
     nseq, nhk, nst = (240, 160, 100) if quick else (6000, 4000, 3000)
+    nrem, nrs = (60, 25) if quick else (2500, 400)
     kind = _replay_kind(c) if c.replay else ""
     if c.replay:
         if kind == "hooked":
             _hooked(c, "hooked", 1)
         elif kind == "stress":
             _stress(c, "stress", nst * 4)
+        elif kind == "remote":
+            _remote(c, "remote", 1)
+        elif kind == "rstress":
+            _rstress(c, "rstress", nrs * 4)
         else:
             _seq(c, "seq", 1)
     else:
         _seq(c, "seq", nseq)
         _hooked(c, "hooked", nhk)
         _stress(c, "stress", nst)
+        _remote(c, "remote", nrem)
+        _rstress(c, "rstress", nrs)
     if c.broken and not c.violations and not c.replay:
         # something no longer checks: spend the extra search budget on the property monitors only
         keep = list(c.broken)
         _seq(c, "seq-search", nseq * (10 if quick else 3), seed=c.seed + 7919, corr=())
         _hooked(c, "hooked-search", nhk * (6 if quick else 2), seed=c.seed + 7919, corr=())
         _stress(c, "stress-search", nst * 10, seed=c.seed + 7919)
+        _remote(c, "remote-search", nrem * (8 if quick else 2), seed=c.seed + 7919, corr=())
         c.broken = keep + [b for b in c.broken if b not in keep]
     c.cov["rule"] = ("distinct = different Coq case term (history or programs+schedule, and observations); non-trivial = "
                      "at least one subscriber received a publication in the case")
@@ -95,7 +131,9 @@ def run(c):
         "MakeRef returns fresh references (C06); token 0 models the empty gen.Ref",
         "one event name is modelled; the harness projects every history on each of its event names",
         "unbounded mailboxes (with a mailbox limit event messages are dropped silently: ErrProcessMailboxFull is ignored by RouteSendEvent)",
-        "remote subscribers (one frame per node, fanned out by the same loop on the remote node) are modelled as ordinary consumers and not exercised by the harness",
+        "subscribers on another node: frames of one order byte (one publisher: from.ID%255+1, KeepNetworkOrder on) are handled by the receiving node in send order (C13 / Proto engine); terminate frames and answers use order byte 0 and are not ordered with them",
+        "subscribers on another node, completeness (nothing lost, nothing twice, one notification): proved and tied for QUIESCENT histories (every call and what it causes on the other node completes before the next call; quiescence is observed by the harness through frame counters and receive-queue marks); without quiescence it is refuted (remote_subscribe_gap_refuted, remote_subscribe_dup_refuted, remote_unregister_overtakes_refuted) - known findings remote-subscribe-race, remote-unregister-overtakes",
+        "two nodes, one connection, the event on the dialing node; node failure / connection loss with event subscribers is C14 (the consumer counter is not corrected by RouteNodeDown: not covered)",
         "controlled schedules: a goroutine performs no access to the event record / relation set between two event.* yield points other than those of the model steps in between (hook granularity; the theorems are proved for the finer step granularity)",
         "start/stop notifications are proved for sequential histories; under concurrency they are refuted (C18_start_stop_notify_refuted, C18_start_stop_order_refuted)",
     ]
